@@ -2,7 +2,7 @@
     stay Coq datatypes; no Extract Constant). Run coqc from the ocaml/ directory. *)
 Require Extraction.
 Require Import ExtrOcamlBasic.
-From IAVL Require Import Bytes Varint Sha256 Tree VMap MTree KV Iter ExportImport Codec Diff Store Ics23 VersionFacts PruneAlgo FastLife Discover Crash DbImage.
+From IAVL Require Import Bytes Varint Sha256 Tree VMap MTree KV Iter ExportImport Codec Diff Store Ics23 VersionFacts PruneAlgo FastLife Discover Crash DbImage Memo.
 
 Definition m_step := MTree.step sha256.
 Definition m_init := MTree.init_state.
@@ -17,6 +17,7 @@ Definition readable_sha := PruneAlgo.readable sha256.
 Definition load_version_sha := PruneAlgo.load_version sha256.
 Definition fstep_sha := FastLife.fstep sha256.
 Definition commit_node_ops_sha := Store.commit_node_ops sha256.
+Definition memo_step_sha := Memo.memo_step sha256.
 
 Extraction "model.ml" m_step m_init bcmp sha256 uvarint_enc uvarint_dec varint_enc varint_dec
   bytes_enc bytes_dec be_enc be_dec
@@ -31,4 +32,5 @@ Extraction "model.ml" m_step m_init bcmp sha256 uvarint_enc uvarint_dec varint_e
   prune_forest_sha prune_forest_disks_sha readable_sha load_version_sha PruneAlgo.phys_of PruneAlgo.rekeyed
   fstep_sha FastLife.finit FastLife.enable_if_needed Discover.discovered_available
   commit_node_ops_sha Crash.recover Crash.image Store.rollback_ops Store.rebuild_ops Store.apply_ops
-  DbImage.encode_image DbImage.decode_image.
+  DbImage.encode_image DbImage.decode_image
+  memo_step_sha Memo.memo_init.
